@@ -116,7 +116,7 @@ class sym_int(metaclass=_IntMeta):
             if _isinstance(x, SRatio):
                 return x.floor()
             if hasattr(x, '__sx_int__'):
-                return x.__sx_int__()
+                return x.__sx_int__(*a[1:]) if _len(a) > 1 else x.__sx_int__()
             if _isinstance(x, SampledStr) and core.ENGINE is not None:
                 core.ENGINE.sample_dependent = True
             if _isinstance(x, SBytes):
@@ -546,6 +546,8 @@ class _SymSocket:
         import socket
         if _isinstance(text, DottedQuad) and family == socket.AF_INET:
             return SBytes(list(text.sx_items))
+        if hasattr(text, '__sx_inet_pton__'):  # numeral token (sx.snum.STok) — C18
+            return text.__sx_inet_pton__(family)
         return socket.inet_pton(family, text)
 
     @staticmethod
@@ -568,6 +570,38 @@ class _SymSocket:
 
 
 sym_socket = _SymSocket()
+
+
+class _SymJson:
+    """The json module with dumps() treated as formatting: carriers are rendered on the model value (sampled)."""
+
+    def __getattr__(self, name):
+        import json
+        return getattr(json, name)
+
+    @staticmethod
+    def dumps(obj, *a, **k):
+        import json
+        seen = []
+
+        def default(o):
+            if _isinstance(o, SInt):
+                seen.append(1)
+                return engine().sample(o)
+            if _isinstance(o, SBool):
+                seen.append(1)
+                return bool(engine().mval(o.e))
+            if _isinstance(o, SBytes):
+                seen.append(1)
+                return o.sampled().hex()
+            raise TypeError('Object of type %s is not JSON serializable' % type(o).__name__)
+        if 'default' not in k:
+            k['default'] = default
+        r = json.dumps(obj, *a, **k)
+        return SampledStr(r) if seen else r
+
+
+sym_json = _SymJson()
 
 
 SHADOWS = {
@@ -630,7 +664,14 @@ def carrier(cls):
                 if k in _SKIP:
                     continue
                 ns[k] = v
-        ns['__slots__'] = ()
+        # a class that annotates INSTANCE attributes (NetMask.maximum, set after construction) needs a __dict__ on its
+        # carrier too; every other carrier stays slot-only (C18)
+        instance_attrs = any(not str(t).startswith('ClassVar') and not str(t).startswith('typing.ClassVar')
+                             for klass in cls.__mro__ if klass not in (_int, object)
+                             for t in vars(klass).get('__annotations__', {}).values())
+        if not instance_attrs:
+            ns['__slots__'] = ()
+        ns.pop('__annotations__', None) if instance_attrs else None
         ns['__sx_real__'] = cls
         # methods that must stay the SInt ones even if the class customises them for display
         for keep in ('__str__', '__repr__'):
